@@ -1956,7 +1956,7 @@ pub fn run_c43(ctx: &Ctx) -> i32 {
     );
     ctx.assume("the 'original' of a copy is identified by the place where it last loaded its config; a copy loaded after its original moved away is not decided either way (counted as load_copy_original_gone_ambiguous)");
     ctx.assume("repo directory names are never reused within a sequence; no symlink aliases of repo directories");
-    let n = ctx.tier().pick(2000, 150_000);
+    let n = ctx.tier().pick(4000, 150_000);
     par_cases(ctx, n, threads(), |i, cs, rng| {
         let workspace_kind = rng.chance(1, 3);
         let ops = gen_ops(rng);
